@@ -12,8 +12,11 @@ print("\n".join(sim.brief_log(500)))
 print("error:", repr(sim.error), "vtime", sim.vtime)
 e1.compute_final_producers(sim); e1.compute_removable(sim); e1.annotate_scans(sim)
 for prop, oracle in e1.ORACLES.items():
-    try:
-        oracle(sim, case); print(prop, "ok")
-    except core.Violation as v:
+    found = {}
+    for v in oracle(sim, case) or ():
+        found.setdefault(v.key, v)
+    if not found:
+        print(prop, "ok")
+    for v in found.values():
         print(prop, "VIOLATION", core.canon(v.sig)); print("   ", v.detail.split("\n")[0][:600])
 env.cleanup(scratch)
